@@ -90,6 +90,12 @@ structure Gack (s : St) : Prop where
     C03.ackJustified (runR C03.ackStep {} s.out) s.lastCommitted = true
   ackReqs : ∀ r, s.commitReq = some r → (r.k, r.off) ∈ (runR C03.ackStep {} s.out).reqs
 
+/-- the start Deferred fires at most once per run (`C13.foStep`) -/
+structure Gfo (s : St) : Prop where
+  foOk : (runR C13.foStep {} s.out).bad = false
+  foRun : s.startD = .pending → (runR C13.foStep {} s.out).running = true ∧ (runR C13.foStep {} s.out).fired = false
+  foCalled : s.startD = .called → (runR C13.foStep {} s.out).running = true ∧ (runR C13.foStep {} s.out).fired = true
+
 /-- retry delays (`C14.dlStep`) -/
 structure Gdl (cfg : Cfg) (s : St) : Prop where
   init0 : 0 ≤ cfg.retryInit
